@@ -50,7 +50,12 @@ def convert_to_payload(dataclass_type: type, msg_id: int | None = None) -> None:
     dataclass_type.names = [field.name for field in dt_fields]  # type: ignore[attr-defined]
     dataclass_type.format_list = [type_map(type_hints[field.name]) for field in  # type: ignore[attr-defined]
                                   dt_fields]
-    setattr(sys.modules[dataclass_type.__module__], dataclass_type.__name__, vp_compile(dataclass_type))
+    # The __init__ written by @dataclass already is a flat initializer and, unlike the one vp_compile derives from
+    # its signature, it knows about default factories (and __post_init__): keep it.
+    dataclass_init = dataclass_type.__init__
+    compiled_type = vp_compile(dataclass_type)
+    compiled_type.__init__ = dataclass_init  # type: ignore[misc]
+    setattr(sys.modules[dataclass_type.__module__], dataclass_type.__name__, compiled_type)
 
 
 class DataClassPayload(VariablePayload):
